@@ -74,6 +74,8 @@ func c02(r *hx.Run) {
 		)
 	}
 	pool := fx.NewPool(fx.Ed25519, fx.SHA256, "ok")
+	twoVer := hostileSecondVersion(v, 2)
+	twoVerShapes := map[int]bool{1: true, 2: true, 3: true, 5: true, 13: true, 14: true}
 	md := metadata.New(metadata.WithIncludePublishedOperations(true), metadata.WithIncludeUnpublishedOperations(true))
 	for si, sh := range shapes {
 		if r.OverBudget() {
@@ -137,6 +139,16 @@ func c02(r *hx.Run) {
 				r.Eval()
 				r.Trans(1)
 				r.Trace(1)
+				if mode == 0 && twoVerShapes[si] && order[0] == 0 {
+					// the same history while a later protocol version (under which none of these operations would be valid) is in
+					// force from time 2 on: the operations carry version 0 and must be ordered and applied exactly as before
+					rm2, err2 := c02Resolve(twoVer, pool.Suffix, ordered, 0)
+					r.Eval()
+					if got2 := ProjectImpl(rm2, err2); got2 != got {
+						r.Violation(fmt.Sprintf("version-at-anchoring-time:shape=%s:%s", strings.Join(sh.ops, "+"), diffFields(got2, got)), caseID+"|2ver",
+							fmt.Sprintf("operations %v (all batched under protocol version 0) resolve differently when a second protocol version is in force from time 2\n  one version : %s\n  two versions: %s", placedDesc(placed), got, got2), nil)
+					}
+				}
 				if got != model {
 					r.Violation(fmt.Sprintf("order-dependence:shape=%s:%s", strings.Join(sh.ops, "+"), diffFields(got, model)), caseID,
 						fmt.Sprintf("operations %v returned by the store in order %v (mode %d)\n  impl : %s\n  model: %s", placedDesc(placed), order, mode, got, model),
